@@ -1,6 +1,8 @@
 package packets1
 
 import (
+	"fmt"
+
 	pkts "github.com/energomonitor/bisquitt/packets"
 )
 
@@ -22,6 +24,11 @@ func (p *Pingresp) Pack() ([]byte, error) {
 }
 
 func (p *Pingresp) Unpack(buf []byte) error {
+	if len(buf) != int(pingrespVarPartLength) {
+		return fmt.Errorf("bad PINGRESP packet length: expected %d, got %d",
+			pingrespVarPartLength, len(buf))
+	}
+
 	return nil
 }
 
